@@ -38,6 +38,7 @@ const (
 	sigLnDeleted    = "listener/deleted-listener-stays-in-dumped-config"
 	sigLnIdle       = "listener/updated-idle-timeout-applied-but-not-recorded"
 	sigZeroDefaults = "cluster/zero-values-defaulted-only-by-config-loader"
+	sigLnRejected   = "listener/rejected-update-replaced-stream-filters"
 )
 
 // ---------------------------------------------------------------------------------------------
@@ -605,6 +606,7 @@ func genOp(rt *rapid.T, m *model, n names, step int, prev *op, st *caseStats) *o
 			RouterRef: n.r(rapid.IntRange(0, 2).Draw(rt, "routerRef")),
 			Inspector: rapid.Bool().Draw(rt, "inspector"),
 			IdleSec:   rapid.SampledFrom([]int{0, 30, 90}).Draw(rt, "idle"),
+			StreamTag: rapid.SampledFrom([]string{"", fmt.Sprintf("t%d", step)}).Draw(rt, "streamTag"),
 		}
 		if cur := m.listeners[n.l(o.L)]; cur != nil && cur.IdleSec != o.Listener.IdleSec && ev.IsKnown(partModel, sigLnIdle) {
 			// known finding: updates that change connection_idle_timeout are excluded by construction
